@@ -418,6 +418,13 @@ func c06(r *rt.Run) {
 	envSmall := c06MakeEnv(c06USmall)
 	if r.Replay != "" {
 		_, w := rt.ReadReplay(r.Replay)
+		if fmt.Sprint(w["family"]) == "bulk" {
+			kind, layout, n := fmt.Sprint(w["store"]), fmt.Sprint(w["layout"]), int(w["n"].(float64))
+			if kv, d := c06BulkRun(r, kind, layout, n); kv != "" {
+				r.Violate(kv, fmt.Sprintf("[%s bulk %s n=%d] %s", kind, layout, n, d), w)
+			}
+			r.Finish("replay")
+		}
 		env := envFull
 		if fmt.Sprint(w["universe"]) == "small" {
 			env = envSmall
@@ -484,8 +491,9 @@ func c06(r *rt.Run) {
 			})
 		}
 	}
+	c06Bulk(r)
 	r.Finish("every operation sequence up to depth d over Add(u)/Remove(u) for u in U (12 atoms incl. two hash-colliding pairs, zero-arity, p/1 vs p/2) and Merge(S1)/Merge(S2), " +
-		"on 9 store constructions; all observers evaluated in every reached state; non-trivial = history contains a Remove or Merge or a re-Add; states = histories (no dedup)")
+		"on 12 store constructions; size dimension: 1100 (thorough: up to 4200) pairwise hash-distinct atoms in three layouts added one by one to every construction with the answer of every Add judged, all observers at sizes 1,2,64,999,1000,1001,1024,1025,n, re-Add, Merge in both directions, Remove of every other atom; all observers evaluated in every reached state; non-trivial = history contains a Remove or Merge or a re-Add; states = histories (no dedup)")
 }
 
 func c06Node(r *rt.Run, env *c06Env, envName, kind string, ops []c06Op) {
